@@ -260,7 +260,7 @@ def run(tier, seed):
                                     theorem=pg['theorems'], problems=pg['problems']), False))
     ncases = 50 if tier == 'quick' else 600
     cases = [seed * 100000 + 16000 + i for i in range(ncases)]
-    for r in core.run_cases(run_case, cases):
+    for r in core.run_cases(run_case, core.with_corpus(PID, cases)):
         rep.merge(r)
     rep.obligation('correspondence: Mandoline.SlicePlot (boxes written per level with their two own planes; distribution over binary '
                    'files) reproduces the written Cell_D files byte for byte',
